@@ -109,6 +109,7 @@ pub struct ChildResult {
     pub exit: Option<i32>,
     pub crumb: Option<u64>,
     pub stderr_tail: String,
+    pub timed_out: bool,
 }
 
 pub struct ChildOut2 {
@@ -122,13 +123,17 @@ pub struct ChildOut2 {
 }
 
 fn run_child(bin: &str, dir: &str, tag: &str, plans: Vec<(u64, FPlan)>) -> ChildResult {
+    let plans_len = plans.len();
     let job = format!("{}/job-{}.json", dir, tag);
     let crumb = format!("{}/crumb-{}", dir, tag);
     let out = format!("{}/out-{}.json", dir, tag);
     let _ = std::fs::remove_file(&crumb);
     let _ = std::fs::remove_file(&out);
     std::fs::write(&job, serde_json::to_vec(&Job { plans }).unwrap()).unwrap_or_else(|e| die(&format!("{}: {}", job, e)));
-    let res = Command::new(bin)
+    // a call through the C ABI that never returns must not hang the check: the child gets a
+    // wall-clock limit far above what a job ever needs (a job of 40 life cycles takes seconds)
+    let limit = std::time::Duration::from_secs(if plans_len <= 1 { 90 } else { 420 });
+    let mut child = Command::new(bin)
         .args(["ffi-child", &job, &crumb, &out])
         .env("ASAN_OPTIONS", format!("exitcode={}:detect_leaks=1:abort_on_error=0:allocator_may_return_null=1", EXIT_ASAN))
         .env("LSAN_OPTIONS", format!("exitcode={}", EXIT_LSAN))
@@ -136,8 +141,40 @@ fn run_child(bin: &str, dir: &str, tag: &str, plans: Vec<(u64, FPlan)>) -> Child
         .stdin(Stdio::null())
         .stdout(Stdio::piped())
         .stderr(Stdio::piped())
-        .output()
+        .spawn()
         .unwrap_or_else(|e| die(&format!("cannot start {}: {}", bin, e)));
+    let drain = |mut r: Box<dyn std::io::Read + Send>| {
+        std::thread::spawn(move || {
+            let mut v = Vec::new();
+            let _ = r.read_to_end(&mut v);
+            v
+        })
+    };
+    let so_t = drain(Box::new(child.stdout.take().expect("stdout")));
+    let se_t = drain(Box::new(child.stderr.take().expect("stderr")));
+    let started = Instant::now();
+    let mut timed_out = false;
+    let status = loop {
+        match child.try_wait() {
+            Ok(Some(st)) => break Some(st),
+            Ok(None) => {
+                if started.elapsed() > limit {
+                    let _ = child.kill();
+                    let _ = child.wait();
+                    timed_out = true;
+                    break None;
+                }
+                std::thread::sleep(std::time::Duration::from_millis(15));
+            }
+            Err(e) => die(&format!("waiting for {}: {}", bin, e)),
+        }
+    };
+    struct Res {
+        stdout: Vec<u8>,
+        stderr: Vec<u8>,
+        code: Option<i32>,
+    }
+    let res = Res { stdout: so_t.join().unwrap_or_default(), stderr: se_t.join().unwrap_or_default(), code: status.and_then(|s| s.code()) };
     let crumb_v = std::fs::read_to_string(&crumb).ok().and_then(|s| s.trim().parse().ok());
     let parsed: Option<ChildOut> = std::fs::read(&out).ok().and_then(|b| serde_json::from_slice(&b).ok());
     let mut tail = String::from_utf8_lossy(&res.stderr).to_string();
@@ -161,9 +198,10 @@ fn run_child(bin: &str, dir: &str, tag: &str, plans: Vec<(u64, FPlan)>) -> Child
             counters: o.counters,
             balance_checked: o.balance_checked,
         }),
-        exit: res.status.code(),
+        exit: res.code,
         crumb: crumb_v,
         stderr_tail: tail,
+        timed_out,
     }
 }
 
@@ -178,6 +216,9 @@ fn classify(r: &ChildResult, nops: usize) -> Option<(String, String, usize)> {
         if let Some((_, clause, detail, op)) = &o.violation {
             return Some((clause.clone(), detail.clone(), *op));
         }
+    }
+    if r.timed_out {
+        return Some(("no-return".into(), "a call through the C interface did not return (child killed at its wall-clock limit)".into(), nops));
     }
     let asan = r.stderr_tail.contains("ERROR: AddressSanitizer");
     let lsan = r.stderr_tail.contains("ERROR: LeakSanitizer");
@@ -369,12 +410,13 @@ pub fn cmd_run(env: &Arc<Env>, tier: &str, args: &[String]) -> i32 {
             Some((c, d, o)) if c == clause => (plan.clone(), (c, d, o)),
             other => die(&format!("life cycle {} reported {} but alone in a fresh child it gives {:?}", index, clause, other.map(|x| x.0))),
         };
+        let budget = if clause == "no-return" { 15 } else { 120 }; // every confirmation of a hang costs its whole time limit
         let mut execs = 0;
         let mut chunk_sz = (best.ops.len() / 2).max(1);
         loop {
             let mut removed = false;
             let mut i = 0;
-            while i < best.ops.len() && execs < 120 {
+            while i < best.ops.len() && execs < budget {
                 let end = (i + chunk_sz).min(best.ops.len());
                 if end - i >= best.ops.len() {
                     i += chunk_sz;
@@ -392,7 +434,7 @@ pub fn cmd_run(env: &Arc<Env>, tier: &str, args: &[String]) -> i32 {
                     _ => i += chunk_sz,
                 }
             }
-            if execs >= 120 {
+            if execs >= budget {
                 break;
             }
             if chunk_sz == 1 {
